@@ -438,6 +438,7 @@ impl Component for HubC {
         // Real parallelism (publisher thread vs. unsubscribing thread) on a private hub.
         if idx % 400 == 3 {
             ops.push(format!("par {} {}", rng.range(16, 96), if matches!(_tier, Tier::Quick) { 150 } else { 400 }));
+            ops.push(format!("sockbacklog {}", rng.pick(&[512usize, 256, 512])));
             ops.push(format!("subfull {}", rng.pick(&[1usize, 1, 2, 8, 128])));
             ops.push(format!("ctlunsub {} {}", rng.pick(&[0usize, 7, 8, 9, 95, 98, 990, 1]), rng.pick(&[2usize, 3, 5, 12, 25])));
             ops.push("len".into());
@@ -711,6 +712,17 @@ impl Component for HubC {
                 }
                 "ok".into()
             }
+            ["sockbacklog", kb] => {
+                // a backlogged client of the REAL control socket: private hub, monitor only, constant reply
+                let Ok(kb) = kb.parse::<usize>() else { return "bad-op".into() };
+                if kb == 0 || kb > 1024 {
+                    return "bad-op".into();
+                }
+                if let Some(desc) = socket_backlog(kb, mon) {
+                    mon.fail(P, "socket-client-not-pruned", desc);
+                }
+                "ok".into()
+            }
             ["par", nsubs, rounds] => {
                 let (Ok(nsubs), Ok(rounds)) = (nsubs.parse::<usize>(), rounds.parse::<usize>()) else {
                     return "bad-op".into();
@@ -902,6 +914,120 @@ fn subscribe_on_full_queue(cap: usize, mon: &mut Mon) -> Option<String> {
     drop(rx);
     mon.count("subscribe-on-full-queue");
     res
+}
+
+/// `sockbacklog <kb>`: a subscribed client of the REAL control socket (`control_socket::spawn`) falls behind - it stops
+/// reading while events of `kb` KiB each are published until its kernel buffer and the connection's push queue are
+/// full - then sends a request, resumes reading, and disconnects. Whatever happened in between, a closed subscriber
+/// is pruned: a few publishes after the disconnect the hub is empty again, and every publish completed at once.
+fn socket_backlog(kb: usize, mon: &mut Mon) -> Option<String> {
+    use srtla_core::priority::CriticalWindow;
+    use srtla_send::config::DynamicConfig;
+    use srtla_send::stats::SharedStats;
+    use tokio::io::{AsyncBufReadExt, AsyncWriteExt, BufReader};
+    let rt = tokio::runtime::Builder::new_current_thread().enable_all().build().expect("runtime");
+    let path = std::env::temp_dir().join(format!("verif-hub-backlog-{}-{kb}.sock", std::process::id())).to_string_lossy().into_owned();
+    let _ = std::fs::remove_file(&path);
+    let hub = SubscriptionHub::new();
+    let pad = "x".repeat(kb * 1024);
+    let res: Result<Option<String>, &'static str> = rt.block_on(async {
+        let srv = srtla_send::control_socket::spawn(path.clone(), DynamicConfig::new(), SharedStats::new(), CriticalWindow::new(), hub.clone());
+        let mut stream = None;
+        for _ in 0..5000 {
+            match tokio::net::UnixStream::connect(&path).await {
+                Ok(s) => {
+                    stream = Some(s);
+                    break;
+                }
+                Err(_) => tokio::time::sleep(Duration::from_millis(1)).await,
+            }
+        }
+        let Some(stream) = stream else {
+            srv.abort();
+            return Err("sockbacklog-skipped:connect");
+        };
+        let (rd, mut wr) = stream.into_split();
+        let mut rd = BufReader::new(rd);
+        let mut line = String::new();
+        if wr.write_all(b"{\"jsonrpc\":\"2.0\",\"id\":1,\"method\":\"subscribe\",\"params\":{\"topic\":\"stats\"}}\n").await.is_err() {
+            srv.abort();
+            return Err("sockbacklog-skipped:io");
+        }
+        match tokio::time::timeout(Duration::from_secs(5), rd.read_line(&mut line)).await {
+            Ok(Ok(n)) if n > 0 => {}
+            _ => {
+                srv.abort();
+                return Err("sockbacklog-skipped:no-subscribe-reply");
+            }
+        }
+        for _ in 0..200 {
+            if hub.len().await == 1 {
+                break;
+            }
+            tokio::time::sleep(Duration::from_millis(1)).await;
+        }
+        // the client stops reading; publishes until well past the connection's 128-slot queue
+        let mut slow = None;
+        for k in 0..400u32 {
+            let t = std::time::Instant::now();
+            if tokio::time::timeout(Duration::from_secs(2), hub.publish("stats", json!({ "k": k, "pad": pad }))).await.is_err() {
+                slow = Some(format!("publish #{k} to a control client that does not read did not complete within 2 s"));
+                break;
+            }
+            let _ = t;
+            if k % 16 == 0 {
+                tokio::task::yield_now().await;
+            }
+        }
+        if slow.is_some() {
+            srv.abort();
+            return Ok(slow);
+        }
+        // the client sends a request and starts reading again, while publishes keep the queue full
+        let _ = wr.write_all(b"{\"jsonrpc\":\"2.0\",\"id\":2,\"method\":\"get_status\"}\n").await;
+        let mut read_lines = 0usize;
+        for k in 0..60u32 {
+            let _ = tokio::time::timeout(Duration::from_secs(2), hub.publish("stats", json!({ "k": 1000 + k, "pad": pad }))).await;
+            line.clear();
+            if let Ok(Ok(n)) = tokio::time::timeout(Duration::from_millis(50), rd.read_line(&mut line)).await {
+                if n > 0 {
+                    read_lines += 1;
+                }
+            }
+        }
+        let _ = read_lines;
+        // the client goes away
+        drop(rd);
+        drop(wr);
+        let mut left = 1usize;
+        for k in 0..40u32 {
+            if tokio::time::timeout(Duration::from_secs(2), hub.publish("stats", json!({ "k": 2000 + k }))).await.is_err() {
+                srv.abort();
+                return Ok(Some(format!("publish #{k} after the client disconnected did not complete within 2 s")));
+            }
+            tokio::time::sleep(Duration::from_millis(25)).await;
+            left = hub.len().await;
+            if left == 0 {
+                break;
+            }
+        }
+        srv.abort();
+        if left != 0 {
+            return Ok(Some(format!("a control client subscribed to `stats`, fell behind (events of {kb} KiB, not reading), sent a request, read again and disconnected; one second and 40 publishes later its subscription is still in the hub (len = {left}): a closed subscriber is never pruned")));
+        }
+        Ok(None)
+    });
+    let _ = std::fs::remove_file(&path);
+    match res {
+        Err(why) => {
+            mon.count(why);
+            None
+        }
+        Ok(r) => {
+            mon.count("socket-backlog");
+            r
+        }
+    }
 }
 
 fn par_stress(nsubs: usize, rounds: usize, mon: &mut Mon) -> Option<String> {
